@@ -1,126 +1,14 @@
 import RedactVerif.Props.C10
 import RedactVerif.Props.C01
-import RedactVerif.Proofs.NI
+import RedactVerif.Proofs.Utf8Valid
 /-
 What the buffer's output reads as with markers stripped, and with envelopes
 deleted (C09's two equalities): lemmas. The development tracks buffers whose
-bytes, trailing markers aside, end in an ASCII byte — so that the
-truncated-UTF-8 tail test never fires — which is what payloads that are empty
-or end in an ASCII byte produce.
+bytes, trailing markers aside, end in a complete UTF-8 character (`RuneEnd`,
+Proofs/Utf8Valid.lean) — so that the truncated-UTF-8 tail test never fires —
+which is what payloads that are empty or end in a complete character produce.
 -/
 namespace Redact
-
-/-! ### Buffers whose (marker-stripped) end is an ASCII byte -/
-
-/-- On the reversed token list: skip trailing markers; the first plain token, if any, is ASCII. -/
-def asciiR : List Tok → Bool
-  | [] => true
-  | .s :: r => asciiR r
-  | .e :: r => asciiR r
-  | .b x :: _ => x < 0x80
-
-def asciiEnd (t : List Tok) : Bool := asciiR t.reverse
-
-theorem asciiEnd_nil : asciiEnd [] = true := rfl
-theorem asciiEnd_snoc_s (t : List Tok) : asciiEnd (t ++ [.s]) = asciiEnd t := by simp [asciiEnd, asciiR]
-theorem asciiEnd_snoc_e (t : List Tok) : asciiEnd (t ++ [.e]) = asciiEnd t := by simp [asciiEnd, asciiR]
-theorem asciiEnd_snoc_b (t : List Tok) (x : Byte) : asciiEnd (t ++ [.b x]) = decide (x < 0x80) := by
-  simp [asciiEnd, asciiR]
-
-theorem asciiEnd_dropLast_marker {t : List Tok} {m : Tok} (hl : t.getLast? = some m) (hm : m.isMarker = true) :
-    asciiEnd t.dropLast = asciiEnd t := by
-  have := eq_dropLast_append_of_getLast hl
-  conv => rhs; rw [this]
-  cases m with
-  | s => rw [asciiEnd_snoc_s]
-  | e => rw [asciiEnd_snoc_e]
-  | b x => simp [Tok.isMarker] at hm
-
-theorem asciiR_append (br ar : List Tok) (ha : asciiR ar = true) (hb : asciiR br = true) : asciiR (br ++ ar) = true := by
-  induction br with
-  | nil => simpa using ha
-  | cons x r ih =>
-    cases x with
-    | s => simp only [List.cons_append, asciiR] at hb ⊢; exact ih hb
-    | e => simp only [List.cons_append, asciiR] at hb ⊢; exact ih hb
-    | b y => simpa [asciiR] using hb
-
-theorem asciiEnd_append (a b : List Tok) (ha : asciiEnd a = true) (hb : asciiEnd b = true) : asciiEnd (a ++ b) = true := by
-  unfold asciiEnd at *
-  rw [List.reverse_append]
-  exact asciiR_append _ _ ha hb
-
-theorem tailBad_endB (x : List Byte) : tailBad (x ++ endB) = false := by
-  rw [tailBad_eq_tbR]
-  simp only [List.reverse_append]
-  have he : endB.reverse = [0xBA, 0x80, 0xE2] := rfl
-  rw [he]
-  have n : ¬ (x.length + 1 + 1 < 2) := by omega
-  unfold tbR
-  simp [backScan, runeStart_80, runeStart_E2, n]
-  decide
-
-theorem tailBad_snoc_ascii (x : List Byte) (c : Byte) (hc : c < 0x80) : tailBad (x ++ [c]) = false := by
-  rw [tailBad_eq_tbR]
-  simp [tbR, hc]
-
-/-- A buffer whose tokens end (markers aside) in an ASCII byte passes the tail test. -/
-theorem tailBad_of_asciiEnd (l : List Byte) (h : asciiEnd (tokenize l) = true) : tailBad l = false := by
-  by_cases hne : tokenize l = []
-  · have : l = [] := tokenize_eq_nil hne
-    subst this; decide
-  · obtain ⟨u, x, hux⟩ : ∃ u x, tokenize l = u ++ [x] :=
-      ⟨(tokenize l).dropLast, (tokenize l).getLast hne, (List.dropLast_concat_getLast hne).symm⟩
-    have hl : l = untok u ++ x.bytes := by
-      have := untok_tokenize l
-      rw [hux, untok_append] at this
-      simpa using this.symm
-    rw [hl]
-    cases x with
-    | s => exact tailBad_startB _
-    | e => exact tailBad_endB _
-    | b c =>
-      rw [hux, asciiEnd_snoc_b] at h
-      exact tailBad_snoc_ascii _ c (by simpa using h)
-
-/-- Pending bytes that are empty or end in an ASCII byte. -/
-def endsAscii (p : List Byte) : Bool :=
-  match p.reverse with
-  | [] => true
-  | x :: _ => x < 0x80
-
-theorem endsAscii_append (a b : List Byte) (ha : endsAscii a = true) (hb : endsAscii b = true) : endsAscii (a ++ b) = true := by
-  unfold endsAscii at *
-  rw [List.reverse_append]
-  cases hbr : b.reverse with
-  | nil => simpa [hbr] using ha
-  | cons x r => simpa [hbr] using hb
-
-/-- The tokens of such bytes: empty, or ending in that ASCII byte. -/
-theorem tokenize_endsAscii (p : List Byte) (h : endsAscii p = true) :
-    p = [] ∨ ∃ q c, p = q ++ [c] ∧ c < 0x80 ∧ tokenize p = tokenize q ++ [.b c] := by
-  by_cases hp : p = []
-  · exact Or.inl hp
-  · right
-    refine ⟨p.dropLast, p.getLast hp, (List.dropLast_concat_getLast hp).symm, ?_, ?_⟩
-    · unfold endsAscii at h
-      have : p.reverse = p.getLast hp :: p.dropLast.reverse := by
-        conv => lhs; rw [← List.dropLast_concat_getLast hp]
-        simp
-      rw [this] at h
-      simpa using h
-    · have hc : p.getLast hp < 0x80 := by
-        unfold endsAscii at h
-        have : p.reverse = p.getLast hp :: p.dropLast.reverse := by
-          conv => lhs; rw [← List.dropLast_concat_getLast hp]
-          simp
-        rw [this] at h
-        simpa using h
-      conv => lhs; rw [← List.dropLast_concat_getLast hp]
-      apply tokenize_snoc
-      intro ⟨_, hx⟩
-      rcases hx with hx | hx <;> (rw [hx] at hc; revert hc; decide)
-
 
 theorem escTok_append (nl : Bool) (out x y : List Tok) : escTok nl out (x ++ y) = escTok nl (escTok nl out x) y := by
   induction x generalizing out with
@@ -133,36 +21,73 @@ theorem escTok_append (nl : Bool) (out x y : List Tok) : escTok nl out (x ++ y) 
       simp only [List.cons_append, escTok]
       split <;> exact ih _
 
-/-- Pending tokens: empty, or ending in an ASCII byte. -/
-def pendAscii (x : List Tok) : Bool :=
-  match x.reverse with
-  | [] => true
-  | .b c :: _ => c < 0x80
-  | _ => false
+/-- Plain tokens without a line feed (or with line splitting off) are appended as they are. -/
+theorem escTok_plain (nl : Bool) (out : List Tok) (r : List Byte) (h : ∀ c ∈ r, ¬ (nl = true ∧ c = LF)) :
+    escTok nl out (r.map .b) = out ++ r.map .b := by
+  induction r generalizing out with
+  | nil => simp [escTok]
+  | cons c t ih =>
+    have hc : (nl && c == LF) = false := by
+      have := h c (by simp)
+      cases nl <;> simp_all
+    simp only [List.map_cons, escTok, hc, Bool.false_eq_true, if_false]
+    rw [ih _ (fun c' hc' => h c' (by simp [hc']))]
+    simp
 
-theorem pendAscii_of_bytes (p : List Byte) (h : endsAscii p = true) : pendAscii (tokenize p) = true := by
-  rcases tokenize_endsAscii p h with rfl | ⟨q, c, _, hc, ht⟩
-  · simp [pendAscii]
-  · rw [ht]; simp [pendAscii, hc]
+theorem valid_no_LF {r : List Byte} (h : validRuneB r = true) (hne : r ≠ [LF]) : ∀ c ∈ r, c ≠ LF := by
+  have big : ∀ c : Byte, 0x80 ≤ c → c ≠ LF := by
+    intro c hc hh; subst hh; revert hc; decide
+  rcases valid_cases h with ⟨a, rfl⟩ | ⟨a, b, rfl⟩ | ⟨a, b, c, rfl⟩ | ⟨a, b, c, d, rfl⟩
+  · intro c hc; simp at hc; subst hc; intro hh; subst hh; exact hne rfl
+  · obtain ⟨ha, hb, _, _⟩ := valid2 h
+    intro x hx; simp at hx
+    rcases hx with rfl | rfl
+    · exact big _ (Nat.le_trans (by decide) ha)
+    · exact big _ hb
+  · obtain ⟨ha, hb, _, hc, _, _⟩ := valid3 h
+    intro x hx; simp at hx
+    rcases hx with rfl | rfl | rfl
+    · exact big _ (Nat.le_trans (by decide) ha)
+    · exact big _ hb
+    · exact big _ hc
+  · obtain ⟨ha, hb, _, hc, _, hd, _, _⟩ := valid4 h
+    intro x hx; simp at hx
+    rcases hx with rfl | rfl | rfl | rfl
+    · exact big _ (Nat.le_trans (by decide) ha)
+    · exact big _ hb
+    · exact big _ hc
+    · exact big _ hd
 
-/-- The escape of ASCII-ended pending tokens ends (markers aside) in an ASCII byte. -/
-theorem asciiEnd_escTok (nl : Bool) (out x : List Tok) (ho : asciiEnd out = true) (hx : pendAscii x = true) :
-    asciiEnd (escTok nl out x) = true := by
-  by_cases hne : x = []
-  · subst hne; simpa [escTok] using ho
-  · obtain ⟨q, t, rfl⟩ : ∃ q t, x = q ++ [t] := ⟨x.dropLast, x.getLast hne, (List.dropLast_concat_getLast hne).symm⟩
+theorem valid_q : validRuneB [0x3F] = true := by decide
+theorem valid_LF : validRuneB [LF] = true := by decide
+
+/-- The escape of pending tokens that end in a complete character ends (markers aside) in one. -/
+theorem runeEnd_escTok (nl : Bool) (out x : List Tok) (ho : RuneEnd out) (hx : PendRune x) :
+    RuneEnd (escTok nl out x) := by
+  rcases hx with rfl | ⟨y, h | h | ⟨r, h, hr⟩⟩
+  · simpa [escTok] using ho
+  · subst h
     rw [escTok_append]
-    cases t with
-    | s => simp [pendAscii] at hx
-    | e => simp [pendAscii] at hx
-    | b c =>
-      have hc : c < 0x80 := by simpa [pendAscii] using hx
-      simp only [escTok]
-      split
-      · rw [show ∀ (l : List Tok), l ++ [Tok.b LF, Tok.s] = (l ++ [.b LF]) ++ [.s] from fun l => by simp,
-          asciiEnd_snoc_s, asciiEnd_snoc_b]
-        decide
-      · rw [asciiEnd_snoc_b]; simpa using hc
+    simp only [escTok]
+    exact runeEnd_snoc_rune _ valid_q
+  · subst h
+    rw [escTok_append]
+    simp only [escTok]
+    exact runeEnd_snoc_rune _ valid_q
+  · subst h
+    rw [escTok_append]
+    by_cases hl : r = [LF] ∧ nl = true
+    · obtain ⟨rfl, rfl⟩ := hl
+      simp only [List.map_cons, List.map_nil, escTok, Bool.true_and, beq_self_eq_true, if_true]
+      have : ∀ (l : List Tok), l ++ [Tok.b LF, Tok.s] = (l ++ [LF].map .b) ++ [.s] := fun l => by simp
+      rw [this]
+      exact runeEnd_snoc_marker (runeEnd_snoc_rune _ valid_LF) rfl
+    · rw [escTok_plain]
+      · exact runeEnd_snoc_rune _ hr
+      · intro c hc ⟨hnl, hcl⟩
+        by_cases hr1 : r = [LF]
+        · exact hl ⟨hr1, hnl⟩
+        · exact valid_no_LF hr hr1 c hc hcl
 
 /-! ### The text outside envelopes after the unsafe-mode escape -/
 
@@ -269,53 +194,37 @@ def pendSafeT (m : Mode) (s : List Byte) : List Tok :=
   if m = .raw then dropEnvT (tokenize s) else if m = .unsafeEsc then lfT (tokenize s) else escT (tokenize s)
 
 /-- The buffer holds `acc` (as read with markers stripped) and `dacc` (as read outside
-envelopes), and its bytes end, markers aside, in an ASCII byte. -/
+envelopes), and its bytes end, markers aside, in a complete character. -/
 structure KInv (b : Buffer) (acc dacc : List Tok) : Prop where
   inv : Inv b
-  cl : asciiEnd (tokenize b.pre) = true
-  pr : b.mode = .raw → asciiEnd (tokenize b.suf) = true
-  pe : b.mode ≠ .raw → endsAscii b.suf = true
+  cl : RuneEnd (tokenize b.pre)
+  pr : b.mode = .raw → RuneEnd (tokenize b.suf)
+  pe : b.mode ≠ .raw → EndsRune b.suf
   plain : stripT (tokenize b.pre) ++ pendPlainT b.mode b.suf = acc
   safe : safeText (evT (tokenize b.pre)) ++ pendSafeT b.mode b.suf = dacc
-
-theorem straddles_of_endsAscii (a b : List Byte) (h : endsAscii a = true) : straddles a b = false := by
-  unfold endsAscii at h
-  unfold straddles
-  cases hr : a.reverse with
-  | nil => simp
-  | cons x r =>
-    rw [hr] at h
-    have hx : x < 0x80 := by simpa using h
-    have h1 : x ≠ 0xE2 := by intro hh; subst hh; revert hx; decide
-    have h2 : x ≠ 0x80 := by intro hh; subst hh; revert hx; decide
-    split <;> simp_all
 
 /-- The tokens of the whole buffer: validated prefix then pending bytes. -/
 theorem tokenize_buf (b : Buffer) (hi : Inv b) : tokenize b.buf = tokenize b.pre ++ tokenize b.suf := by
   rw [buf_eq_pre_suf b]
   exact tokenize_append_of_not_straddles _ _ (not_straddles_of_goodT _ _ hi.good)
 
-theorem asciiEnd_of_pendAscii {x : List Tok} (h : pendAscii x = true) (hne : x ≠ []) : asciiEnd x = true := by
-  obtain ⟨q, t, rfl⟩ : ∃ q t, x = q ++ [t] := ⟨x.dropLast, x.getLast hne, (List.dropLast_concat_getLast hne).symm⟩
-  cases t with
-  | s => simp [pendAscii] at h
-  | e => simp [pendAscii] at h
-  | b c => rw [asciiEnd_snoc_b]; simpa [pendAscii] using h
-
 /-- Under the invariant the tail test never fires. -/
 theorem KInv.tail {b : Buffer} {acc dacc : List Tok} (k : KInv b acc dacc) : tailBad b.buf = false := by
-  apply tailBad_of_asciiEnd
-  rw [tokenize_buf b k.inv]
   by_cases hm : b.mode = .raw
-  · exact asciiEnd_append _ _ k.cl (k.pr hm)
-  · by_cases hs : tokenize b.suf = []
-    · rw [hs, List.append_nil]; exact k.cl
-    · exact asciiEnd_append _ _ k.cl (asciiEnd_of_pendAscii (pendAscii_of_bytes _ (k.pe hm)) hs)
+  · apply tailBad_of_runeEnd
+    rw [tokenize_buf b k.inv]
+    exact runeEnd_append k.cl (k.pr hm)
+  · rcases k.pe hm with hs | ⟨q, r, hs, hr⟩
+    · apply tailBad_of_runeEnd
+      rw [tokenize_buf b k.inv, hs]
+      simpa using k.cl
+    · rw [buf_eq_pre_suf b, hs, ← List.append_assoc]
+      exact tailBad_valid _ _ hr
 
 /-- A fully validated, closed state. -/
 structure KFull (b : Buffer) (o : Bool) (acc dacc : List Tok) : Prop where
   full : FullOK b o
-  cl : asciiEnd (tokenize b.buf) = true
+  cl : RuneEnd (tokenize b.buf)
   plain : stripT (tokenize b.buf) = acc
   safe : safeText (evT (tokenize b.buf)) = dacc
 
@@ -329,9 +238,9 @@ theorem escapeToEnd_K (b : Buffer) (acc dacc : List Tok) (k : KInv b acc dacc) (
   have hbuf : (b.escapeToEnd (decide (b.mode = .unsafeEsc))).buf = escapeBytesAt b.buf b.validUntil (decide (b.mode = .unsafeEsc)) false := rfl
   have htok : tokenize (b.escapeToEnd (decide (b.mode = .unsafeEsc))).buf =
       escTok (decide (b.mode = .unsafeEsc)) (tokenize b.pre) (tokenize b.suf) := by rw [hbuf]; exact hspec
-  have hpend := pendAscii_of_bytes _ (k.pe hm)
+  have hpend := pendRune_of_bytes _ (k.pe hm)
   refine ⟨hf, ?_, ?_, ?_⟩
-  · rw [htok]; exact asciiEnd_escTok _ _ _ k.cl hpend
+  · rw [htok]; exact runeEnd_escTok _ _ _ k.cl hpend
   · rw [htok, stripT_escTok]
     have := k.plain
     simpa [pendPlainT, hm] using this
@@ -370,7 +279,7 @@ theorem stripT_snoc_e (t : List Tok) : stripT (t ++ [.e]) = stripT t := by simp 
 
 /-- (B) closing the envelope changes neither reading. -/
 theorem endRedactable_K (b : Buffer) (acc dacc : List Tok) (k : KFull b true acc dacc) :
-    asciiEnd (tokenize b.endRedactable.buf) = true ∧ stripT (tokenize b.endRedactable.buf) = acc ∧
+    RuneEnd (tokenize b.endRedactable.buf) ∧ stripT (tokenize b.endRedactable.buf) = acc ∧
       safeText (evT (tokenize b.endRedactable.buf)) = dacc := by
   have hne : tokenize b.buf ≠ [] := tokens_ne_nil_of_scan_true k.full.sc
   have hb : b.buf.isEmpty = false := by
@@ -383,18 +292,18 @@ theorem endRedactable_K (b : Buffer) (acc dacc : List Tok) (k : KFull b true acc
     have hl := (getLast_tokenize_start b.buf).2 hs'
     have hsn := snoc_of_getLast hl
     rw [e1, tokenize_dropLast_start _ hs']
-    refine ⟨by rw [asciiEnd_dropLast_marker hl rfl]; exact k.cl, ?_, ?_⟩
+    refine ⟨runeEnd_dropLast k.cl hl rfl, ?_, ?_⟩
     · have := k.plain; rw [hsn, stripT_snoc_s] at this; exact this
     · have := k.safe; rw [hsn, safeText_evT_snoc_s] at this; exact this
   · have hs1 : hasSuffix b.buf startB = false := by simpa using hs
     have e1 : b.endRedactable.buf = b.buf ++ endB := by simp [Buffer.endRedactable, hb, hs1]
     rw [e1, tokenize_append_endB]
-    exact ⟨by rw [asciiEnd_snoc_e]; exact k.cl, by rw [stripT_snoc_e]; exact k.plain,
+    exact ⟨runeEnd_snoc_marker k.cl rfl, by rw [stripT_snoc_e]; exact k.plain,
       by rw [safeText_evT_snoc_e]; exact k.safe⟩
 
 /-- (C) opening an envelope changes neither reading. -/
 theorem startRedactable_K (b : Buffer) (acc dacc : List Tok) (k : KFull b false acc dacc) :
-    asciiEnd (tokenize b.startRedactable.buf) = true ∧ stripT (tokenize b.startRedactable.buf) = acc ∧
+    RuneEnd (tokenize b.startRedactable.buf) ∧ stripT (tokenize b.startRedactable.buf) = acc ∧
       safeText (evT (tokenize b.startRedactable.buf)) = dacc := by
   by_cases hs : hasSuffix b.buf endB = true
   · have hs' := (hasSuffix_iff _ _).1 hs
@@ -402,31 +311,31 @@ theorem startRedactable_K (b : Buffer) (acc dacc : List Tok) (k : KFull b false 
     have hl := (getLast_tokenize_end b.buf).2 hs'
     have hsn := snoc_of_getLast hl
     rw [e1, tokenize_dropLast_end _ hs']
-    refine ⟨by rw [asciiEnd_dropLast_marker hl rfl]; exact k.cl, ?_, ?_⟩
+    refine ⟨runeEnd_dropLast k.cl hl rfl, ?_, ?_⟩
     · have := k.plain; rw [hsn, stripT_snoc_e] at this; exact this
     · have := k.safe; rw [hsn, safeText_evT_snoc_e] at this; exact this
   · have hs1 : hasSuffix b.buf endB = false := by simpa using hs
     have e1 : b.startRedactable.buf = b.buf ++ startB := by simp [Buffer.startRedactable, hs1]
     rw [e1, tokenize_append_startB]
-    exact ⟨by rw [asciiEnd_snoc_s]; exact k.cl, by rw [stripT_snoc_s]; exact k.plain,
+    exact ⟨runeEnd_snoc_marker k.cl rfl, by rw [stripT_snoc_s]; exact k.plain,
       by rw [safeText_evT_snoc_s]; exact k.safe⟩
 
 /-- Leaving raw mode: the pending fragments are read as they are. -/
 theorem raw_K (b : Buffer) (acc dacc : List Tok) (k : KInv b acc dacc) (hm : b.mode = .raw) :
-    asciiEnd (tokenize b.buf) = true ∧ stripT (tokenize b.buf) = acc ∧ safeText (evT (tokenize b.buf)) = dacc := by
+    RuneEnd (tokenize b.buf) ∧ stripT (tokenize b.buf) = acc ∧ safeText (evT (tokenize b.buf)) = dacc := by
   have ⟨_, ho⟩ := full_of_raw b k.inv hm
   have hob := k.inv.raw hm
   have hsc := k.inv.sc
   rw [ho] at hsc
   change scan (tokenize b.pre) = _ at hsc
   rw [tokenize_buf b k.inv]
-  refine ⟨asciiEnd_append _ _ k.cl (k.pr hm), ?_, ?_⟩
+  refine ⟨runeEnd_append k.cl (k.pr hm), ?_, ?_⟩
   · rw [stripT_append]; have := k.plain; simpa [pendPlainT, hm] using this
   · rw [safeText_closed_raw _ _ hsc hob.2]; have := k.safe; simpa [pendSafeT, hm] using this
 
 /-- What `finalize` hands out reads as `acc` / `dacc`. -/
 theorem finalize_K (b : Buffer) (acc dacc : List Tok) (k : KInv b acc dacc) :
-    asciiEnd (tokenize b.finalize.buf) = true ∧ stripT (tokenize b.finalize.buf) = acc ∧
+    RuneEnd (tokenize b.finalize.buf) ∧ stripT (tokenize b.finalize.buf) = acc ∧
       safeText (evT (tokenize b.finalize.buf)) = dacc := by
   by_cases hm : b.mode = .raw
   · have ⟨_, ho⟩ := full_of_raw b k.inv hm
@@ -443,11 +352,11 @@ theorem finalize_K (b : Buffer) (acc dacc : List Tok) (k : KInv b acc dacc) :
       exact endRedactable_K _ acc dacc kf
 
 theorem kinv_of_full (b : Buffer) (acc dacc : List Tok) (hf : FullOK b false) (ho : b.markerOpen = false)
-    (hc : asciiEnd (tokenize b.buf) = true) (hp : stripT (tokenize b.buf) = acc)
+    (hc : RuneEnd (tokenize b.buf)) (hp : stripT (tokenize b.buf) = acc)
     (hs : safeText (evT (tokenize b.buf)) = dacc) : KInv b acc dacc := by
   have hpre := pre_of_full hf.full
   have hsuf := suf_of_full hf.full
-  refine ⟨inv_of_full_closed _ hf ho, by rw [hpre]; exact hc, fun _ => (by rw [hsuf]; rfl), fun _ => (by rw [hsuf]; rfl), ?_, ?_⟩
+  refine ⟨inv_of_full_closed _ hf ho, by rw [hpre]; exact hc, fun _ => (by rw [hsuf]; exact runeEnd_nil), fun _ => (by rw [hsuf]; exact Or.inl rfl), ?_, ?_⟩
   · rw [hpre, hsuf]; simp [pendPlainT, stripT, escT, hp]
   · rw [hpre, hsuf]; simp [pendSafeT, dropEnvT, dropEnvAux, lfT, escT, hs]
 
@@ -478,7 +387,7 @@ theorem startWrite_K (b : Buffer) (acc dacc : List Tok) (k : KInv b acc dacc) : 
     have e : b.startWrite = { b.startRedactable with validUntil := b.startRedactable.buf.length } := startWrite_open b hc
     have hpre' : b.startWrite.pre = b.startRedactable.buf := by rw [e]; simp [Buffer.pre]
     have hsuf' : b.startWrite.suf = [] := by rw [e]; simp [Buffer.suf]
-    refine ⟨j1, by rw [hpre']; exact c, fun h => (by rw [hu] at h; cases h), fun _ => (by rw [hsuf']; rfl), ?_, ?_⟩
+    refine ⟨j1, by rw [hpre']; exact c, fun h => (by rw [hu] at h; cases h), fun _ => (by rw [hsuf']; exact Or.inl rfl), ?_, ?_⟩
     · rw [hpre', hsuf']; simp [pendPlainT, hu, escT, p]
     · rw [hpre', hsuf']; simp [pendSafeT, hu, lfT, s]
   · rw [startWrite_noop b hc]; exact k
@@ -498,8 +407,8 @@ theorem dropEnvT_append_closed (a b : List Tok) (ha : scan a = some false) (hb :
 /-- Appending pending bytes: both readings grow by the payload's reading in the current mode. -/
 theorem append_K (b : Buffer) (p : List Byte) (acc dacc : List Tok) (k : KInv b acc dacc)
     (hc : ¬ (b.mode = .unsafeEsc ∧ b.markerOpen = false))
-    (hr : b.mode = .raw → Obtainable p ∧ asciiEnd (tokenize p) = true)
-    (he : b.mode ≠ .raw → endsAscii p = true) :
+    (hr : b.mode = .raw → Obtainable p ∧ RuneEnd (tokenize p))
+    (he : b.mode ≠ .raw → EndsRune p) :
     KInv (b.append p) (acc ++ pendPlainT b.mode p) (dacc ++ pendSafeT b.mode p) := by
   have j := inv_append b p k.inv hc (fun h => (hr h).1)
   have hpre : (b.append p).pre = b.pre := by
@@ -510,10 +419,10 @@ theorem append_K (b : Buffer) (p : List Byte) (acc dacc : List Tok) (k : KInv b 
   have htok : tokenize (b.suf ++ p) = tokenize b.suf ++ tokenize p := by
     by_cases hm : b.mode = .raw
     · exact tokenize_append_of_not_straddles _ _ (not_straddles_of_goodT _ _ (k.inv.raw hm).1)
-    · exact tokenize_append_of_not_straddles _ _ (straddles_of_endsAscii _ _ (k.pe hm))
+    · exact tokenize_append_of_not_straddles _ _ (straddles_of_endsRune _ _ (k.pe hm))
   refine ⟨j, by rw [hpre]; exact k.cl, ?_, ?_, ?_, ?_⟩
-  · intro h; rw [hmode] at h; rw [hsuf, htok]; exact asciiEnd_append _ _ (k.pr h) (hr h).2
-  · intro h; rw [hmode] at h; rw [hsuf]; exact endsAscii_append _ _ (k.pe h) (he h)
+  · intro h; rw [hmode] at h; rw [hsuf, htok]; exact runeEnd_append (k.pr h) (hr h).2
+  · intro h; rw [hmode] at h; rw [hsuf]; exact endsRune_append (k.pe h) (he h)
   · rw [hpre, hsuf, hmode, ← k.plain, List.append_assoc]
     congr 1
     unfold pendPlainT
@@ -533,8 +442,8 @@ theorem append_K (b : Buffer) (p : List Byte) (acc dacc : List Tok) (k : KInv b 
       · exact escT_append _ _
 
 theorem write_K (b : Buffer) (p : List Byte) (acc dacc : List Tok) (k : KInv b acc dacc)
-    (hr : b.mode = .raw → Obtainable p ∧ asciiEnd (tokenize p) = true)
-    (he : b.mode ≠ .raw → endsAscii p = true) :
+    (hr : b.mode = .raw → Obtainable p ∧ RuneEnd (tokenize p))
+    (he : b.mode ≠ .raw → EndsRune p) :
     KInv (b.write p) (acc ++ pendPlainT b.mode p) (dacc ++ pendSafeT b.mode p) := by
   have ⟨_, m1, hc, _⟩ := inv_startWrite b k.inv
   have := append_K b.startWrite p acc dacc (startWrite_K b acc dacc k) hc (fun h => hr (m1 ▸ h)) (fun h => he (m1 ▸ h))
